@@ -18,9 +18,9 @@ def gen(rng, kind):
     sets = []
     for _ in range(nds):
         coll = []
-        for _ in range(rng.randint(1, 4) if kind == "imager" else 2):
+        for _ in range(rng.randint(1, 5) if kind == "imager" else 2):
             pts = []
-            for _ in range(rng.randint(2, 5)):
+            for _ in range(rng.randint(2, 5) if kind != "imager" else rng.randint(1, 6)):
                 b = rng.randint(0, 10)
                 pts.append([b, b + rng.randint(1, 8)])
             coll.append(pts)
@@ -100,7 +100,9 @@ def make_items(ctx, n):
             ps = rng.choice([1, 2, 3])
             fsets = [[[[e.f(b), e.f(d)] for b, d in dg] for dg in coll] for coll in sets]
             job = dict(kind=kind, datasets=fsets, ops=ops, birth_range=[e.f(0), e.f(4)], pers_range=[e.f(0), e.f(4)], pixel_size=e.f(ps),
-                       sigma=float(e.f(1)) ** 2, single_as_array=rng.random() < 0.5)
+                       sigma=float(e.f(1)) ** 2, single_as_array=rng.random() < 0.5,
+                       skew=int(rng.random() < 0.65),                                  # 0: (birth, persistence) input, skew=False in every call
+                       njobs=[(rng.choice([0, 0, 1, 2]) if op == 2 else 0) for op, _ in ops])     # transform through the n_jobs branch
             tlads = [[0, 0, [1000 * i + j for j in range(len(coll))]] for i, coll in enumerate(sets)]
             ufix = [NOTFIXED, NOTFIXED]
             desc = dict(kind=kind, sets=sets, ops=ops, fixed=["pixel_size=%d" % ps], emb=e.name, job=job)
